@@ -19,6 +19,25 @@ loader.install()
 import hailtop.utils.utils as U  # noqa: E402
 
 MODES = ('ret', 'raise', 'cancel', 'online')
+
+CREATED = []   # every task the code under test creates, in creation order (reset per run)
+
+
+class _AsyncioRecorder:
+    """`asyncio` as seen from hailtop.utils.utils: identical, except that create_task also records the task.
+    (asyncio.all_tasks() dereferences weak references, and CrossHair runs gc.collect() on every such dereference.)"""
+
+    def __getattr__(self, name):
+        return getattr(asyncio, name)
+
+    @staticmethod
+    def create_task(coro, **kw):
+        t = asyncio.create_task(coro, **kw)
+        CREATED.append(t)
+        return t
+
+
+U.asyncio = _AsyncioRecorder()
 CAP = 40    # upper bound on ticks spent reaching quiescence
 
 A_BOUND, A_BOUND1, A_CONTRACT, A_PENDING, A_PERMITS, A_PERMITS1, A_RETURNS = (1 << i for i in range(7))
@@ -131,8 +150,8 @@ async def _director(mode, holder, P, n, order, outs, drains, vals):
 
     def snapshot(me):
         st.pending_at_return = 0
-        for t in asyncio.all_tasks():
-            if t is not director and t is not me and not t.done():
+        for t in CREATED:
+            if not t.done():
                 st.pending_at_return += 1
 
     async def call():
@@ -216,8 +235,8 @@ async def _director(mode, holder, P, n, order, outs, drains, vals):
         mask |= A_PENDING
     # after everything has finished the semaphore holds what it held before the call
     pend_now = 0
-    for t in asyncio.all_tasks():
-        if t is not director and not t.done():
+    for t in CREATED:
+        if not t.done():
             pend_now += 1
             t.cancel()
     if pend_now:
@@ -236,6 +255,7 @@ async def _director(mode, holder, P, n, order, outs, drains, vals):
 def run_schedule(mode, holder, P, n, perm, outs, drains, vals):
     """returns (mask, info)"""
     order = decode_perm(n, perm)
+    del CREATED[:]
     loop = DetLoop()
     try:
         mask, st, info = loop.run_until_complete(_director(mode, holder, P, n, order, outs, drains, vals))
